@@ -1132,6 +1132,13 @@ int main(int argc, char** argv) {
 
         // ---------------------------------------------------------- pre-state
         gen_state(g, ix, s);
+        if (g.chance(1, 2)) { // half of the cases share most registers with the other cases of their group of 8 (state.h MixSticky)
+            Rng gg = ctx.case_rng(c / 8, 0x6157);
+            CaseState grp;
+            gen_state(gg, ix, grp);
+            MixSticky(g, s, grp);
+            ctx.count("cases_with_group_state");
+        }
         u16 exp = d.expanded ? factor_edge(g) : 0;
         s.v[ix.sat] = g.bits(1);
         s.v[ix.sata] = g.bits(1);
